@@ -413,7 +413,7 @@ def date(year, month_, day):
 
     try:
         result = (dt.datetime(year, month_, 1) - DATE_ZERO).days
-    except ValueError:
+    except (ValueError, OverflowError):
         # the month is before year 1 or after year 9999
         return NUM_ERROR
     if result <= 60:
